@@ -39,6 +39,8 @@ seq_prop("C12", ["single", "fresh"], ["single", "fresh", "ext"],
          "values drawn from a scalar alphabet chosen to collide under == (0, False, 0.0, 1, True, 1.0, '', None, big ints, boundary floats, escape-heavy and astral strings) nested to depth 3, stored through every entry point and read back through a fresh object with strict leaf types")
 seq_prop("C17", ["single", "ext"], ["single", "ext"],
          "programs with 35-45% read operations on existing and on missing resources; after every read the resource is re-read independently and must be byte-for-byte what it was (content and existence)")
+PROPS["C12"]["suites"] = list(PROPS["C12"]["suites"]) + [dict(unit="unit_c08_unserialisable", special="awkward")]
+PROPS["C11"]["suites"] = list(PROPS["C11"]["suites"]) + [dict(unit="unit_c11_foreign", special="c11f")]
 
 
 BUF_FAMS = [1, 2, 4, 5]
@@ -131,7 +133,17 @@ def _c06h_tasks(tier, seed):
     return [("unit_c06_handles", (fam, seed)) for fam in BUF_FAMS]
 
 
-SPECIAL = {"iofault": _iofault_tasks, "c06h": _c06h_tasks}
+def _awkward_tasks(tier, seed):
+    """valid JSON data that encoders trip over (unpaired surrogates, control characters), saved in every
+    write mode: must be accepted and read back exactly"""
+    return [("unit_c08_unserialisable", (mode, seed)) for mode in ("atomic+awkward", "write_concern+awkward", "plain+awkward")]
+
+
+def _c11f_tasks(tier, seed):
+    return [("unit_c11_foreign", (fam, seed)) for fam in range(6)]
+
+
+SPECIAL = {"iofault": _iofault_tasks, "c06h": _c06h_tasks, "awkward": _awkward_tasks, "c11f": _c11f_tasks}
 
 C08_SCENARIOS = ["dict_default", "dict_default_fresh", "dict_default_shorter", "dict_write_concern_nothreads",
                  "attrdict_default", "dict_plain_nothreads", "dict_threads_enabled_after_construction",
@@ -146,7 +158,7 @@ def _c08_tasks(tier, seed):
         parts = 2
         for part in range(parts):
             out.append(("unit_c08_crash", (name, part, parts, seed, tier == "thorough")))
-    for mode in ("atomic", "write_concern", "plain"):
+    for mode in ("atomic", "write_concern", "plain", "atomic+awkward", "write_concern+awkward", "plain+awkward"):
         out.append(("unit_c08_unserialisable", (mode, seed)))
     return out
 
